@@ -105,47 +105,102 @@ def a1(prog):
 
 
 def a2(prog):
+    """op_assert::next interpreted from source (with the stack class) on an upstream serving stacks of depth 1, 3 and 18 and a predicate
+    that answers yes / no / fail per stack in every pattern of length 3: it yields exactly the stacks the predicate holds for, each
+    the very object that was pulled, with the same values in the same positions, in order, and then reports exhaustion."""
+    import itertools
+    from cxxobj import CxxEvaluator, Obj, Vec, OutOfBounds
+    from absint import Thrown
     inst, findings = [], []
     f = prog.func_opt("op_assert::next")
-    if f is None:
+    if f is None or f.get("body") is None:
         raise Broken("anchor op_assert::next vanished")
-    pulled = None
-    for x in walk(f["body"]):
-        if x.get("k") in ("while", "if") and x.get("var"):
-            i = unwrap(x["var"].get("init"))
-            if isinstance(i, dict) and i.get("k") == "call" and i.get("fn") == "next":
-                pulled = x["var"]
-        if x.get("k") == "decl":
-            for v in x["vars"]:
-                i = unwrap(v.get("init"))
-                if isinstance(i, dict) and i.get("k") == "call" and i.get("fn") == "next":
-                    pulled = v
-    if pulled is None:
-        raise Broken("op_assert::next no longer binds the pulled stack to a variable (unmodelled shape)")
+    push = [g for g in prog.funcs.values() if g.get("cls") == "stack" and g["n"] == "push" and g.get("body") is not None]
+    if len(push) != 1:
+        raise Broken("anchor stack::push vanished")
+    enum = {c["n"]: ("enum", c["n"], c["v"]) for e in prog.enums.values() if e["q"] == "pred_result" for c in e["consts"]}
+    if set(enum) < {"yes", "no", "fail"}:
+        raise Broken("enum pred_result vanished")
+
+    class El:
+        def __init__(self, name):
+            self.name = name
+            self.addr = id(self)
+
+        def copy_value(self):
+            return self
+
+        def __repr__(self):
+            return self.name
+
+    class Ty:
+        def __init__(self, c):
+            self.m_code = c
+
+        def copy_value(self):
+            return Ty(self.m_code)
+
+    class Src:
+        def __init__(self):
+            self.queue = []
+            self.addr = id(self)
+
+    class Pred:
+        def __init__(self):
+            self.answers = {}
+            self.addr = id(self)
+    hooks = {
+        "zw_value::get_type": lambda ev, o, a: Ty(1), "value_type::code": lambda ev, o, a: o.m_code,
+        "op::next": lambda ev, o, a: o.queue.pop(0) if o.queue else None,
+        "pred::result": lambda ev, o, a: enum[o.answers[id(a[1])]],
+        "method:result": lambda ev, o, a: enum[o.answers[id(a[1])]],
+        "method:get": lambda ev, o, a: o, "method:release": lambda ev, o, a: o,
+        "ctor:std::runtime_error": lambda ev, o, a: "exc",
+    }
+    w = prog.globals.get("selector::W")
+    W = (w.get("init") or {}).get("iv") if w else None
+    ev = CxxEvaluator(hooks, {"selector::W": W} if W is not None else {}, prog=prog)
+
+    def mkstack(n, tag):
+        st = Obj("stack")
+        st.m_values, st.m_profile = Vec([], "values"), 0
+        for i in range(n):
+            ev.call(push[0], st, [El("%s%d" % (tag, i))])
+        return st
     key = "A2:op_assert::next"
-    problems = []
-    for x in walk(f["body"]):
-        if x.get("k") == "return":
-            e = unwrap(x.get("e"))
-            if is_null_stack_expr(x.get("e")):
-                continue
-            if not (isinstance(e, dict) and e.get("k") == "ref" and e.get("id") == pulled["id"]):
-                problems.append((x["l"], "returns `%s` instead of the stack it pulled" % short(x.get("e"))))
-        if x.get("k") == "call":
-            for a in ([x["obj"]] if x.get("obj") is not None else []) + x.get("a", []):
-                ua = unwrap(a)
-                if isinstance(ua, dict) and ua.get("k") == "ref" and ua.get("id") == pulled["id"]:
-                    fn = x.get("fn")
-                    if fn in ("operator bool", "operator->", "operator*", "result", "move", "get") or x.get("f", "").startswith("std::move<"):
-                        continue
-                    if x.get("k") == "call" and x.get("cls", "").startswith("std::unique_ptr<") and fn in ("operator!=", "operator=="):
-                        continue
-                    problems.append((x["l"], "passes the pulled stack to %s" % (x.get("f") or fn)))
-            if x.get("cls") == "stack" and x.get("fn") in stack_mutators(prog)[0]:
-                problems.append((x["l"], "calls stack::%s" % x["fn"]))
-    inst.append((key, {"pulled": pulled["n"]}))
-    for loc, what in problems:
-        findings.append({"key": key, "where": loc, "msg": "op_assert::next %s: `?x`/`!x` must yield the incoming stack unchanged or nothing" % what, "detail": None})
+    bad = None
+    n = 0
+    for pattern in itertools.product(("yes", "no", "fail"), repeat=3):
+        up, pr = Src(), Pred()
+        stacks = [mkstack(d, t) for d, t in ((1, "a"), (18, "b"), (3, "c"))]
+        before = [list(s_.m_values.items) for s_ in stacks]
+        up.queue = list(stacks)
+        for s_, ans in zip(stacks, pattern):
+            pr.answers[id(s_)] = ans
+        this = Obj("op_assert")
+        this.m_upstream, this.m_pred = up, pr
+        got = []
+        try:
+            for _ in range(5):
+                r = ev.call(f, this, [Obj("scon")])
+                n += 1
+                if r is None:
+                    break
+                got.append(r)
+            again = ev.call(f, this, [Obj("scon")])
+        except (OutOfBounds, Thrown) as x:
+            bad = bad or "op_assert::next: %s" % x
+            continue
+        want = [s_ for s_, ans in zip(stacks, pattern) if ans == "yes"]
+        if ([id(x) for x in got] != [id(x) for x in want] or again is not None) and bad is None:
+            bad = "with a predicate answering %s for three incoming stacks the assertion yields %d stack(s)%s; expected exactly the stacks it holds for, the very objects pulled" % (
+                list(pattern), len(got), " and something after exhaustion" if again is not None else "")
+        for s_, b_ in zip(stacks, before):
+            if list(s_.m_values.items) != b_ and bad is None:
+                bad = "the assertion changes a stack it is shown: %s became %s" % (b_[:4] + (["..."] if len(b_) > 4 else []), list(s_.m_values.items)[:4])
+    inst.append((key, {"next_calls": n}))
+    if bad:
+        findings.append({"key": key, "where": "libzwerg/" + f["l"], "msg": bad + " (`?x`/`!x` yield the incoming stack unchanged or nothing)", "detail": None})
     return inst, findings
 
 
